@@ -281,3 +281,26 @@ func ChunksCeil(total, size int, f func(int)) {
 		}
 	}
 }
+
+type slab struct {
+	Rows      []float64
+	RowOffset int
+	Buf       []int
+}
+
+// clean:WINDOWIDX
+func (s *slab) RowAt(cell int) float64 {
+	k := cell / len(s.Buf)
+	return s.Rows[k+s.RowOffset]
+}
+
+// want:WINDOWIDX the window position is forgotten.
+func (s *slab) RowAtBad(cell int) float64 {
+	k := cell / len(s.Buf)
+	return s.Rows[k+1]
+}
+
+// silent:WINDOWIDX an absolute position.
+func (s *slab) RowAbs(k int) float64 {
+	return s.Rows[k]
+}
